@@ -6,6 +6,7 @@ import StsModel.Drv.Scan
 import StsModel.Drv.Conf
 import StsModel.Drv.Send
 import StsModel.Drv.Queue
+import StsModel.Drv.Wire
 namespace Sts.Drv
 
 def main (args : List String) : IO UInt32 :=
@@ -20,6 +21,7 @@ def main (args : List String) : IO UInt32 :=
   | ["send"] => run sendStep {}
   | ["queue"] => run queueStep ([], [])
   | ["queuep"] => run queueStep ([], [])
+  | ["wire"] => run wireStep {}
   | _ => do
     IO.eprintln "usage: stsdrv <component>   (ranges, stage, logfmt, chunkbin, scan, conf, send, queue, queuep)"
     return 2
